@@ -304,7 +304,7 @@ Proof.
 Qed.
 Lemma C_ok_backspace c : C_ok c -> C_ok (backspace c).
 Proof.
-  intros H. unfold backspace. destruct (cap_to_process c); [|now apply C_ok_err].
+  intros H. unfold backspace. destruct (cap_to_process c); [|exact H].
   apply C_ok_upd_cap; [|exact H]. intros a Ha. apply P_ok_set_cursor_at.
   apply P_ok_upd_cur_text; [intros; now apply T_ok_backspace|exact Ha].
 Qed.
@@ -415,7 +415,7 @@ Proof.
   destruct (code =? kEDM). { destruct (c_act c); [now apply C_ok_push_active|exact H]. }
   destruct (code =? kENM); [now apply C_ok_new_buffered|].
   destruct ((code =? kTO1) || (code =? kTO2) || (code =? kTO3)).
-  { destruct (cap_to_process c); [|now apply C_ok_err]. apply C_ok_upd_cap; [intros; now apply P_ok_indent_cursor|exact H]. }
+  { destruct (cap_to_process c); [|exact H]. apply C_ok_upd_cap; [intros; now apply P_ok_indent_cursor|exact H]. }
   destruct (code =? kCR).
   { destruct (c_act c) as [a|] eqn:E; [|exact H].
     destruct (negb (p_style a =? sRollUp)); [now apply C_ok_push_active|].
@@ -549,6 +549,87 @@ Proof.
   destruct (code =? kDER); [destruct (cap_to_process c); [apply tc_upd_cap|reflexivity]|].
   destruct (code =? kBS); [apply tc_backspace|reflexivity].
 Qed.
+(* ---- no word raises: the exception flag is only set by a malformed word of a line (process_line), never by step
+   (since the repair of backspace / tab offset without a caption being processed) ---- *)
+Lemma noerr_upd_act c f : c_err (upd_act c f) = c_err c.
+Proof. unfold upd_act. destruct (c_act c); reflexivity. Qed.
+Lemma noerr_upd_cap c f : c_err (upd_cap c f) = c_err c.
+Proof. unfold upd_cap. destruct (_ =? _); [reflexivity|apply noerr_upd_act]. Qed.
+Lemma noerr_sync_acur c : c_err (sync_acur c) = c_err c.
+Proof. unfold sync_acur. destruct (c_act c); reflexivity. Qed.
+Lemma noerr_new_active c b s : c_err (new_active_caption c b s) = c_err c.  Proof. reflexivity. Qed.
+Lemma noerr_new_buffered c : c_err (new_buffered_caption c) = c_err c.  Proof. reflexivity. Qed.
+Lemma noerr_push_active c e cl : c_err (push_active c e cl) = c_err c.
+Proof.
+  unfold push_active. destruct (c_act c); [|reflexivity]. destruct (para_is_empty _); [reflexivity|].
+  destruct (to_paragraph _ _). reflexivity.
+Qed.
+Lemma noerr_flip c t : c_err (flip c t) = c_err c.
+Proof.
+  unfold flip. set (c1 := push_active c (Some t) true). assert (E : c_err c1 = c_err c) by apply noerr_push_active. clearbody c1.
+  destruct (c_act c); destruct (p_id (c_buf c1)); cbn; exact E.
+Qed.
+Lemma noerr_backspace c : c_err (backspace c) = c_err c.
+Proof. unfold backspace. destruct (cap_to_process c); [apply noerr_upd_cap|reflexivity]. Qed.
+Lemma noerr_paint_on c t : c_err (paint_on_active_caption c t) = c_err c.
+Proof.
+  unfold paint_on_active_caption. destruct (c_act c).
+  - rewrite noerr_upd_act. destruct (is_nil _); [|rewrite noerr_upd_act]; cbn; apply noerr_push_active.
+  - rewrite noerr_upd_act. reflexivity.
+Qed.
+Lemma noerr_with_attrs c a b d : c_err (with_attrs c a b d) = c_err c.  Proof. reflexivity. Qed.
+Lemma noerr_process_pac c d : c_err (process_pac c d) = c_err c.
+Proof.
+  unfold process_pac. destruct (_ =? sPaintOn).
+  { rewrite noerr_sync_acur, noerr_with_attrs, !noerr_upd_act. apply noerr_paint_on. }
+  destruct (_ =? sRollUp).
+  { destruct (_ && _); [|rewrite noerr_sync_acur, noerr_with_attrs]; rewrite !noerr_upd_act; destruct (c_act c); reflexivity. }
+  destruct (_ =? sPopOn); rewrite noerr_sync_acur; reflexivity.
+Qed.
+Lemma noerr_process_mid_row c d : c_err (process_mid_row c d) = c_err c.
+Proof.
+  unfold process_mid_row.
+  set (c1 := if negb _ then _ else _).
+  assert (E : c_err c1 = c_err c).
+  { unfold c1. destruct (negb _).
+    - rewrite noerr_with_attrs. destruct (cap_to_process c); [|reflexivity].
+      destruct (negb _); [|apply noerr_upd_cap]. destruct (_ && _); [apply noerr_upd_cap|]. destruct (negb _); apply noerr_upd_cap.
+    - rewrite noerr_upd_cap. reflexivity. }
+  clearbody c1. destruct (cap_to_process c1); [|exact E]. destruct (_ =? _); [rewrite noerr_upd_cap|]; exact E.
+Qed.
+Lemma noerr_process_attribute c d : c_err (process_attribute c d) = c_err c.
+Proof. unfold process_attribute. destruct (cap_to_process c); [apply noerr_upd_cap|reflexivity]. Qed.
+Lemma noerr_process_text c w : c_err (process_text c w) = c_err c.
+Proof.
+  unfold process_text. rewrite noerr_sync_acur.
+  destruct (_ =? sPaintOn).
+  { rewrite noerr_upd_act.
+    set (c1 := match c_act c with None => _ | Some _ => c end).
+    assert (E : c_err c1 = c_err c) by (unfold c1; destruct (c_act c); [reflexivity|apply noerr_paint_on]). clearbody c1.
+    destruct (starts_with_space w).
+    - destruct (negb _); rewrite noerr_upd_act; [rewrite noerr_paint_on|]; exact E.
+    - destruct (ends_with_space w); [|rewrite noerr_upd_act; exact E].
+      destruct (negb _); [rewrite noerr_paint_on|rewrite noerr_upd_act]; rewrite noerr_upd_act; exact E. }
+  destruct (_ =? sRollUp); [rewrite noerr_upd_act; destruct (c_act c); reflexivity|].
+  destruct (_ =? sPopOn); reflexivity.
+Qed.
+Lemma noerr_process_control c code : c_err (process_control c code) = c_err c.
+Proof.
+  unfold process_control.
+  destruct (code =? kRCL); [reflexivity|]. destruct (code =? kRDC); [reflexivity|].
+  destruct (_ || _ || _).
+  { set (c1 := with_depth _ _). assert (E : c_err c1 = c_err c) by reflexivity. clearbody c1.
+    destruct (c_act c1); [exact E|]. rewrite noerr_sync_acur, noerr_upd_act. exact E. }
+  destruct (code =? kEOC); [rewrite noerr_upd_act, noerr_flip; reflexivity|].
+  destruct (code =? kEDM); [destruct (c_act c); [apply noerr_push_active|reflexivity]|].
+  destruct (code =? kENM); [reflexivity|].
+  destruct (_ || _ || _); [destruct (cap_to_process c); [apply noerr_upd_cap|reflexivity]|].
+  destruct (code =? kCR).
+  { destruct (c_act c) as [a|] eqn:E; [|reflexivity]. destruct (negb _); [apply noerr_push_active|].
+    destruct (para_is_empty _); rewrite noerr_upd_act, noerr_new_active; [reflexivity|]. rewrite noerr_upd_act. apply noerr_push_active. }
+  destruct (code =? kDER); [destruct (cap_to_process c); [apply noerr_upd_cap|reflexivity]|].
+  destruct (code =? kBS); [apply noerr_backspace|reflexivity].
+Qed.
 (* is the word dropped as the second copy of a doubled code? *)
 Definition is_dup (c : ctx) (w : Z) : bool :=
   match c_prev c with Some pv => (pv =? value w) && is_code (pv / 256) | None => false end.
@@ -567,6 +648,24 @@ Proof.
     destruct (_ =? cExtended); [cbn; now rewrite tc_process_text, tc_backspace|reflexivity].
   - destruct (negb _); [reflexivity|]. cbn. now rewrite tc_process_text.
 Qed.
+
+Lemma noerr_step c w : c_err (step c w) = c_err c.
+Proof.
+  unfold step. destruct (c_err c) eqn:He; [exact He|].
+  destruct (match c_prev c with Some pv => _ | None => false end); [exact He|].
+  destruct (value w =? 0); [exact He|].
+  destruct (byte1 w <? 32).
+  - destruct (negb _); [exact He|].
+    destruct (_ =? cPac); [cbn; now rewrite noerr_process_pac|].
+    destruct (_ =? cAttr); [cbn; now rewrite noerr_process_attribute|].
+    destruct (_ =? cMidRow); [cbn; now rewrite noerr_process_mid_row|].
+    destruct (_ =? cControl); [cbn; now rewrite noerr_process_control|].
+    destruct (_ =? cSpecial); [cbn; now rewrite noerr_process_text|].
+    destruct (_ =? cExtended); [cbn; now rewrite noerr_process_text, noerr_backspace|exact He].
+  - destruct (negb _); [exact He|]. cbn. now rewrite noerr_process_text.
+Qed.
+Lemma noerr_steps ws : forall c, c_err (fold_left step ws c) = c_err c.
+Proof. induction ws as [|w ws IH]; intros c; cbn [fold_left]; [reflexivity|]. rewrite IH. apply noerr_step. Qed.
 
 (* ================= lines and files ================= *)
 Lemma iter_shift {A} (f : A -> A) k x : iter_n k f (f x) = iter_n (S k) f x.
@@ -605,6 +704,42 @@ Lemma stamps_run talign lines : C_ok (line_stamp lines) (run_lines talign lines)
 Proof.
   unfold run_lines, flush. apply C_ok_new_buffered. apply C_ok_push_active; [exact I|].
   apply C_ok_lines; [apply incl_refl|apply C_ok_init].
+Qed.
+
+(* ---- to_model raises exactly when a line holds a malformed word ---- *)
+Definition bad_line (line : text) : bool := match from_str line with LErr => true | _ => false end.
+Lemma err_process_line c line : c_err (process_line c line) = c_err c || bad_line line.
+Proof.
+  unfold process_line, bad_line. destruct (c_err c) eqn:He; [exact He|].
+  destruct (from_str line) as [| |t ws]; [exact He|reflexivity|]. rewrite noerr_steps. exact He.
+Qed.
+Lemma err_process_lines lines : forall c, c_err (fold_left process_line lines c) = c_err c || existsb bad_line lines.
+Proof.
+  induction lines as [|l lines IH]; intros c; cbn [fold_left existsb]; [now rewrite orb_false_r|].
+  rewrite IH, err_process_line, orb_assoc. reflexivity.
+Qed.
+Lemma err_run_lines ta lines : c_err (run_lines ta lines) = existsb bad_line lines.
+Proof.
+  unfold run_lines, flush. unfold new_buffered_caption. cbn [c_err with_buf]. rewrite noerr_push_active, err_process_lines. reflexivity.
+Qed.
+Lemma to_model_raises_iff ta lines : to_model ta lines = DocErr <-> exists l, In l lines /\ from_str l = LErr.
+Proof.
+  unfold to_model, finish. rewrite err_run_lines. split.
+  - destruct (existsb bad_line lines) eqn:E; [|discriminate]. intros _.
+    apply existsb_exists in E as (l & Hl & Hb). exists l. split; [exact Hl|]. unfold bad_line in Hb.
+    destruct (from_str l); try discriminate. reflexivity.
+  - intros (l & Hl & Hb). replace (existsb bad_line lines) with true; [reflexivity|].
+    symmetry. apply existsb_exists. exists l. split; [exact Hl|]. unfold bad_line. now rewrite Hb.
+Qed.
+(* when no caption is being processed a backspace or a tab offset is ignored, and an extended character is the character alone *)
+Lemma no_caption_ignored c : cap_to_process c = None ->
+  backspace c = c /\ (forall k, k = kTO1 \/ k = kTO2 \/ k = kTO3 -> process_control c k = c) /\
+  process_control c kBS = c.
+Proof.
+  intros H. assert (Hb : backspace c = c) by (unfold backspace; now rewrite H).
+  split; [exact Hb|]. split.
+  - intros k [-> | [-> | ->]]; unfold process_control; cbn; now rewrite H.
+  - unfold process_control. cbn. exact Hb.
 Qed.
 
 (* ================= from time codes to seconds ================= *)
@@ -669,14 +804,15 @@ Proof.
   unfold tc_offset. rewrite E1, E2. reflexivity.
 Qed.
 
-(* the document: begin and end of every paragraph, and the absolute begin of every span *)
+(* the document: begin and end of every paragraph, and the absolute begin of every span; a paint-on span begin is written
+   relative to the paragraph's begin and is never negative: max(g - b, 0) (since the repair of to_paragraph) *)
 Definition span_ok (lines : list text) (pb : option Q) (paint : bool) (ch : childq) : Prop :=
   match ch with
   | QBr => True
   | QSpan None _ _ => True
   | QSpan (Some sb) _ _ =>
       exists g, on_line_grid lines g /\
-                (sb = g \/ (paint = true /\ exists b, pb = Some b /\ sb = Qminus g b))
+                (sb = g \/ (paint = true /\ exists b, pb = Some b /\ sb = qmax0 (Qminus g b)))
   end.
 Lemma doc_times talign lines rs ps : to_model talign lines = Doc rs ps ->
   forall p, In p ps ->
@@ -713,6 +849,39 @@ Proof.
   intros (line & lab & r & ws & k & Hin & Hfs & Hr & Hk & ->). exists line, lab, r, ws. repeat split; try assumption.
   - unfold tc_offset, tc_frames, Qlt. cbn [fst snd Qnum Qden]. destruct Hr; subst r; cbn [rn rd r30 r2997 Z.to_pos]; nia.
   - unfold Qle. cbn [Qnum Qden]. destruct Hr; subst r; cbn [rn rd r30 r2997 Z.to_pos]; nia.
+Qed.
+
+(* ---- no time of the document is negative (since the repair of the paint-on span begin) ---- *)
+Lemma qmax0_nonneg x : (0 <= qmax0 x)%Q.
+Proof. unfold qmax0. destruct (Qle_bool 0 x) eqn:E; [now apply Qle_bool_iff|apply Qle_refl]. Qed.
+Lemma qmax0_pos x : (0 <= x)%Q -> qmax0 x = x.
+Proof. intros H. unfold qmax0. apply Qle_bool_iff in H. now rewrite H. Qed.
+Lemma qmax0_neg x : (x < 0)%Q -> qmax0 x = 0%Q.
+Proof.
+  intros H. unfold qmax0. destruct (Qle_bool 0 x) eqn:E; [|reflexivity].
+  apply Qle_bool_iff in E. exfalso. exact (Qlt_not_le _ _ H E).
+Qed.
+Lemma grid_positive lines q : on_line_grid lines q -> (0 < q)%Q.
+Proof.
+  intros H. destruct (not_before_line lines q H) as (line & lab & r & ws & _ & Hfs & Hlt & _).
+  apply Qle_lt_trans with (y := tc_offset (lab, r)); [|exact Hlt].
+  destruct (from_str_rate _ _ _ _ Hfs) as [Hr H0].
+  unfold tc_offset, tc_frames, Qle. cbn [fst snd Qnum Qden]. destruct Hr; subst r; cbn [rn rd r30 r2997 Z.to_pos]; lia.
+Qed.
+Definition span_nonneg (ch : childq) : Prop := match ch with QSpan (Some sb) _ _ => (0 <= sb)%Q | _ => True end.
+Lemma span_ok_nonneg lines pb paint ch : span_ok lines pb paint ch -> span_nonneg ch.
+Proof.
+  destruct ch as [|[sb|] st tx]; cbn; try (intros; exact I).
+  intros (g & Hg & [->|(_ & b & _ & ->)]); [apply Qlt_le_weak; eapply grid_positive; exact Hg|apply qmax0_nonneg].
+Qed.
+Lemma doc_times_nonneg talign lines rs ps : to_model talign lines = Doc rs ps ->
+  forall p, In p ps ->
+    (forall b, q_begin p = Some b -> (0 < b)%Q) /\ (forall e, q_end p = Some e -> (0 < e)%Q) /\
+    Forall span_nonneg (q_children p).
+Proof.
+  intros H p Hp. destruct (doc_times talign lines rs ps H p Hp) as (Hb & He & paint & Hc).
+  split; [intros b Eb; eapply grid_positive; eauto|]. split; [intros e Ee; eapply grid_positive; eauto|].
+  rewrite Forall_forall in *. intros ch Hch. eapply span_ok_nonneg; eauto.
 Qed.
 
 (* ---- frames per word ---- *)
